@@ -231,6 +231,12 @@ static void usual_arith_conv(Node **lhs, Node **rhs) {
   *rhs = new_cast(*rhs, ty);
 }
 
+// lock cmpxchg and xchg work on a general-purpose register.
+static void check_atomic_size(Type *ty, Token *tok) {
+  if (ty->size != 1 && ty->size != 2 && ty->size != 4 && ty->size != 8)
+    error_tok(tok, "atomic operation on an object of this size is not supported");
+}
+
 void add_type(Node *node) {
   if (!node || node->ty)
     return;
@@ -365,11 +371,13 @@ void add_type(Node *node) {
       error_tok(node->cas_addr->tok, "pointer expected");
     if (node->cas_old->ty->kind != TY_PTR)
       error_tok(node->cas_old->tok, "pointer expected");
+    check_atomic_size(node->cas_addr->ty->base, node->tok);
     return;
   case ND_EXCH:
     if (node->lhs->ty->kind != TY_PTR)
       error_tok(node->lhs->tok, "pointer expected");
     node->ty = node->lhs->ty->base;
+    check_atomic_size(node->ty, node->tok);
 
     // The new value is converted to the type of the object.
     if (is_numeric(node->ty) || node->ty->kind == TY_PTR)
